@@ -484,7 +484,20 @@ def run(run):
     rep.finish(rep.batch(section_perturb(rep), timeout_s=timeout), PROP)
     rep.finish(rep.batch([o for p_ in section_perturb_finite(rep) for o in p_], timeout_s=timeout), PROP)
     for li in range(len(LAYOUTS)):
-        rep.finish(rep.batch([o for p_ in section_frames(rep, li) for o in p_], timeout_s=timeout), PROP)
+        try:
+            pp_ = section_frames(rep, li)
+        except RuntimeError as e:
+            # the code left the modelled behaviour on this layout (e.g. evaluates an interpolant
+            # outside its nodes): ask the compiled code on the same layout
+            spec = {'kind': 'numeric', 'check': 'frames', 'point': {}, 'params': {'layout': li}, 'obligation': 'table operations on layout %d' % li}
+            res = common.run_replays([dict(spec, property=PROP)])[0]
+            if res.get('violated'):
+                run.violation('layout %d: symbolic execution left the model (%s); real code: %s' % (li, str(e)[:160], res.get('detail')), common.write_replay(PROP, spec), res.get('detail'))
+            else:
+                run.error('layout %d: symbolic execution failed (%s) and the compiled code satisfies the oracle - inconclusive' % (li, str(e)[:200]))
+            run.family('table operations', 1, 0, 0.0)
+            continue
+        rep.finish(rep.batch([o for p_ in pp_ for o in p_], timeout_s=timeout), PROP)
     rep.selfcheck(PROP, [{'check': 'to180', 'point': {'a': a_}} for a_ in (190.0, -725.5, 1e4 + 0.25)] + [{'check': 'series', 'point': {}}, {'check': 'perturb_finite', 'point': {}}] +
                   [{'check': 'frames', 'point': {}, 'params': {'layout': li}} for li in range(len(LAYOUTS)) if li != 2])
     for can in CANARIES:
@@ -587,7 +600,11 @@ def replay(spec):
         fails.append('layout %s: d(A,A) != 0' % name)
     if colsel == 'all-node' and (np.any(dab[lin].values != 0) or np.abs(dab.values).max() > 1e-9):
         fails.append('layout %s: difference against a sub-sampling of itself is not zero' % name)
-    rs = transform.resample_state(A, np.array(sorted(set(ta) | {ta[0] - 1.0, ta[-1] + 1.0})))
-    if list(rs.index) != ta or list(rs.columns) != list(A.columns) or np.abs(rs.values - A.values).max() > 1e-9:
+    try:
+        rs = transform.resample_state(A, np.array(sorted(set(ta) | {ta[0] - 1.0, ta[-1] + 1.0})))
+    except Exception as e:      # noqa: BLE001
+        rs = None
+        fails.append('layout %s: resample_state raises %s (%s) for requested times beyond the span, which are documented to be dropped' % (name, type(e).__name__, str(e)[:100]))
+    if rs is not None and (list(rs.index) != ta or list(rs.columns) != list(A.columns) or np.abs(rs.values - A.values).max() > 1e-9):
         fails.append('layout %s: resampling does not reproduce the original rows / drops outside times / keeps the column order' % name)
     return {'violated': bool(fails), 'detail': fails}
